@@ -63,6 +63,7 @@ type WireJob struct {
 	Chunk     int    `json:"chunk"`
 	Chunks    int    `json:"chunks"`
 	Thorough  bool   `json:"thorough"`
+	First     bool   `json:"first_packet,omitempty"` // alter the very first RTP packet of the stream (SSRC field)
 	Only      *Alter `json:"only,omitempty"`
 }
 
@@ -87,6 +88,8 @@ var moreTargets = map[string][]string{
 
 func wireJobs(thorough bool) []Job {
 	var out []Job
+	out = append(out, Job{Wire: &WireJob{Flow: "play", Transport: "udp", Target: "s2c-rtp", Shape: "small", First: true, Thorough: thorough}},
+		Job{Wire: &WireJob{Flow: "record", Transport: "udp", Target: "c2s-rtp", Shape: "small", First: true, Thorough: thorough}})
 	for _, fl := range []string{"play", "record", "back"} {
 		for _, tr := range []string{"udp", "tcp", "tcp-frames"} {
 			out = append(out, Job{Wire: &WireJob{Flow: fl, Transport: tr, Thorough: thorough}})
@@ -748,6 +751,10 @@ func runWire(job WireJob) (out JobOut) {
 		clearPass(w, &out, outcomes, addVio)
 		return out
 	}
+	if job.First {
+		firstPass(w, &out, outcomes, addVio)
+		return out
+	}
 	tamperPass(&w, &out, outcomes, addVio)
 	return out
 }
@@ -864,7 +871,7 @@ func clearPass(w *world, out *JobOut, outcomes map[string]bool, addVio func(stri
 	} else {
 		outcomes[fmt.Sprintf("clear/%s/no-payload-visible", job.name())] = true
 	}
-	if len(out.Samples) == 0 {
+	if len(out.Samples) == 0 && job.Flow == "play" {
 		out.Samples = append(out.Samples, map[string]any{"part": "B", "flow": job.Flow, "transport": job.Transport, "wire_units_searched": units, "units_with_clear_payload": leaks,
 			"packets_delivered_intact": out.Evals})
 	}
@@ -1115,6 +1122,93 @@ func tamperPass(wp **world, out *JobOut, outcomes map[string]bool, addVio func(s
 	if wr.Dir == "c2s" {
 		if n := w.env.Log.Count("decode-error"); n != len(w.srvRx.errs) {
 			out.SetupErr = fmt.Sprintf("sysx decode-error events %d != handler count %d", n, len(w.srvRx.errs))
+		}
+	}
+}
+
+// firstPass alters the FIRST RTP packet of a stream (one bit of every byte of the SSRC field, one world each).
+// Demanded: the altered packet is not delivered and a decode error is reported. Observed only: whether the
+// unaltered packets that follow are still delivered (the remote SSRC is latched before authentication).
+func firstPass(w0 *world, out *JobOut, outcomes map[string]bool, addVio func(string, map[string]any)) {
+	job := w0.job
+	w := w0
+	for k := 0; k < 4; k++ {
+		if k > 0 {
+			var err error
+			if w, err = newWorld(job); err != nil {
+				out.SetupErr = err.Error()
+				return
+			}
+			defer w.close()
+		}
+		var wr writerT
+		for _, x := range w.writers() {
+			if x.Name == job.Target {
+				wr = x
+			}
+		}
+		a := Alter{Byte: 8 + k, Bit: (3 * k) % 8, Value: -1}
+		from := wr.rx.mark()
+		w.tam.arm(w.matcher(wr), &a)
+		s, err := w.send(wr, wr.PTs[0], "small")
+		if err != nil {
+			out.SetupErr = "first packet refused: " + err.Error()
+			return
+		}
+		var h held
+		select {
+		case h = <-w.tam.got:
+		case <-time.After(sysx.HangLimit):
+			out.SetupErr = "the first packet never appeared on the wire"
+			return
+		}
+		w.env.Net.Inject(h.from, h.to.Port, a.apply(h.data))
+		w.env.Net.Inject(h.from, h.to.Port, h.data)
+		fence, err := w.send(wr, wr.PTs[0], "small")
+		if err != nil {
+			out.SetupErr = "fence refused: " + err.Error()
+			return
+		}
+		// three datagrams were given to the receiver; each ends in a delivery or in a decode error
+		done := wr.rx.wait(sysx.HangLimit, func() bool {
+			return (len(wr.rx.rtp)-from.rtp)+(len(wr.rx.errs)-from.errs) >= 3
+		})
+		out.Evals++
+		out.Nontrivial = append(out.Nontrivial, fmt.Sprintf("first-packet/%s/%s/%d", job.Flow, wr.Name, k))
+		wr.rx.mu.Lock()
+		var foreign []any
+		orig, fenceN := 0, 0
+		for _, r := range wr.rx.rtp[from.rtp:] {
+			switch {
+			case s.matchesRTP(r):
+				orig++
+			case fence.matchesRTP(r):
+				fenceN++
+			default:
+				foreign = append(foreign, r)
+			}
+		}
+		errs := append([]string{}, wr.rx.errs[from.errs:]...)
+		wr.rx.mu.Unlock()
+		detail := map[string]any{"target": wr.Name, "alteration": a, "decode_errors": errs, "first_packet": true}
+		switch {
+		case len(foreign) > 0 || orig > 1:
+			detail["delivered"] = foreign
+			addVio("altered-rtp-delivered/first-packet-bit-in-header", detail)
+		case !done:
+			out.SetupErr = fmt.Sprintf("first-packet: %d deliveries and %d decode errors for 3 datagrams", orig+fenceN, len(errs))
+			return
+		case len(errs) == 0:
+			addVio("altered-rtp-no-decode-error/first-packet-bit-in-header", detail)
+		}
+		obs := "later-unaltered-packets-delivered"
+		if orig == 0 || fenceN == 0 {
+			obs = "later-unaltered-packets-rejected"
+			out.Counts["observation/first-packet-altered/later-unaltered-packets-rejected"]++
+		}
+		outcomes[fmt.Sprintf("observation/%s/%s/first-packet-ssrc-altered/%s", job.name(), wr.Name, obs)] = true
+		if k == 0 {
+			out.Samples = append(out.Samples, map[string]any{"part": "B (observation, not demanded)", "target": job.name() + "/" + wr.Name, "first_packet_alteration": a, "decode_errors": errs, "observation": obs})
 		}
 	}
 }
